@@ -24,6 +24,7 @@
 #
 from __future__ import annotations
 
+import re
 import string
 from enum import Enum
 from typing import Union, MutableSequence
@@ -39,6 +40,10 @@ def escape_newlines(string: str) -> str:
     return string.replace("\n", "\\n")
 
 
+# A backslash that a single line string literal would read as (part of) an escape sequence.
+_AMBIGUOUS_BACKSLASH = re.compile(r"""\\(?:[n'"]|$)""")
+
+
 def repr_string(string: str, indent: int = 0, prefer_single_qoute: bool = False) -> str:
     if prefer_single_qoute:
         preferred_quote = "'"
@@ -50,8 +55,17 @@ def repr_string(string: str, indent: int = 0, prefer_single_qoute: bool = False)
         secondary_multiline_quote = "'''"
 
     if "\n" not in string:
+        if _AMBIGUOUS_BACKSLASH.search(string):
+            # Backslashes can not be escaped in single line literals (\\n, \\' and \\" would be read as escape
+            # sequences). Multi line literals are taken verbatim, so write the string as one, on a single line.
+            for delimiter in (preferred_multiline_quote, secondary_multiline_quote):
+                if delimiter not in string and not string.endswith(delimiter[0]) and len(string.splitlines()) == 1:
+                    return f"{delimiter}{string}{delimiter}"
         # Single line string
         return f"{preferred_quote}{escape_quotes(string, which_quotes=preferred_quote)}{preferred_quote}"
+    if not _AMBIGUOUS_BACKSLASH.search(string) and all(line.startswith(" ") for line in string.split("\n")):
+        # Reading a multi line literal removes the indentation that all lines have in common.
+        return f"{preferred_quote}{escape_newlines(escape_quotes(string, which_quotes=preferred_quote))}{preferred_quote}"
     if preferred_multiline_quote in string:
         if secondary_multiline_quote in string:
             # uh oh... We can't properly handle this at the moment. We fall back to single line string representation.
